@@ -231,7 +231,7 @@ def shard(idx, n, tier, seed, count):
 
 
 def run(tier, seed, scale=1.0):
-    count = int((150 if tier == "quick" else 2500) * scale)
+    count = int((150 if tier == "quick" else 900) * scale)
     return common.run_shards(shard, 16, tier=tier, seed=seed, count=count)
 
 
